@@ -14,7 +14,8 @@ CHECKS = {
             "message judged as a message type of its kind (it accepts the message of every annotated method of every part)",
             "TLA+ spec + TLC, corpus compiled with the real macros, trace validation (Trace_Routing)"),
     "C02": ("routing", "6 C02", "TLC model check of the dispatch machine + validation of Deliver/Handler/Return events of every "
-            "handler of the corpus through entry points and the multitest Contract impl",
+            "handler of the corpus through entry points and the multitest Contract impl; bridged dispatch on contracts with chain-custom types; "
+            "every operation of the multitest histories runs the handler it names exactly once (handler invocations counted per chain)",
             "TLA+ spec + TLC, trace validation of echo-handler events"),
     "C03": ("routing", "6 C03", "TLC checks that first-match routing over published lists implies 'accepts iff exactly one part accepts' "
             "for all small programs; every document class delivered to the real contract-level message and each part, relation judged by TLC",
@@ -84,11 +85,13 @@ CHECKS = {
     "C12": ("multitest", "6 C12", "Multitest.tla (abstract chain: store / instantiate with options / exec / query / sudo / migrate, plus the harness's own helpers "
             "update_block / set_block / code_info) simulated by TLC into "
             "operation histories; each history applied through the generated proxies to one chain and as raw JSON to an identically seeded twin; "
-            "after every operation views and results of both chains are judged by TLC against each other and against the machine",
+            "after every operation views, results and the number of handler invocations of both chains are judged by TLC against each other and "
+            "against the machine; a test purpose draws histories in which the same query is asked again after the chain alone has moved",
             "TLA+ spec + TLC simulation, twin-chain replay, trace validation (Trace_Multitest)"),
     "C16": ("routing", "6 C16", "query handlers with six response types (two structs, a one-element tuple, a pair, a vector of one-element tuples, an array; "
             "a quarter via resp= and an aliased result); response_schemas() of every part and "
-            "of the contract-level message compared by TLC with the specification's table, any-of arity with the number of parts",
+            "of the contract-level message compared by TLC with the specification's table (for a generic contract: of two instantiations asked in one "
+            "process), any-of arity with the number of parts and any-of members with the parts' own schemas through one schema generator",
             "TLA+ spec + TLC, compiled corpus, trace validation of Schemas events"),
 }
 
